@@ -103,17 +103,20 @@ PROPS["C12"] = dict(
 )
 
 PROPS["C13"] = dict(
-    modules=["Proofs.C13", "Proofs.C13Json", "Proofs.C13Object", "Proofs.C13Valid", "Proofs.C13Agree", "Proofs.C13Proto"],
+    modules=["Proofs.C13", "Proofs.C13Json", "Proofs.C13Object", "Proofs.C13Valid", "Proofs.C13Agree", "Proofs.C13Proto", "Proofs.C13Grammar"],
     theorems=["Goflow.C13.varint_roundtrip", "Goflow.C13.frame_split", "Goflow.C13.stream_of_messages",
               "Goflow.C13.jsonQuoteBody_closed", "Goflow.C13.jsonQuote_valid", "Goflow.C13.utf8_plain",
               "Goflow.C13.number_decimal", "Goflow.C13.valOK_array", "Goflow.C13.members_ok", "Goflow.C13.object_ok",
               "Goflow.C13.render_scalar", "Goflow.C13.item_shape", "Goflow.C13.formatJSON_valid",
               "Goflow.C13.shapeOK_default", "Goflow.C13.default_valid", "Goflow.C13.mapUnknown_inv", "Goflow.C13.valueOf_scalars",
               "Goflow.C13.formatJSON_valid_sharp", "Goflow.C13.forms_agree", "Goflow.C13.same_item_count",
-              "Goflow.C13.unmarshal_marshal", "Goflow.C13.stream_roundtrip", "Goflow.C13.exMsg_ok"],
+              "Goflow.C13.unmarshal_marshal", "Goflow.C13.stream_roundtrip", "Goflow.C13.exMsg_ok",
+              "Goflow.C13.Grammar.valid_sound", "Goflow.C13.Grammar.valid_complete", "Goflow.C13.Grammar.valid_iff",
+              "Goflow.C13.Grammar.formatJSON_is_json_object", "Goflow.C13.Grammar.default_is_json_object",
+              "Goflow.C13.Grammar.jsonQuote_is_json_string", "Goflow.C13.Grammar.decimal_is_json_number"],
     generators=[dict(name="C13", quick=40, thorough=1500)],
     harness=["impl"],
-    level_text="Theorems: frame_split / stream_roundtrip (a stream of N frames reads back as the N messages, unmarshal_marshal with a reader written from the protobuf encoding rules), jsonQuote_valid (every byte string is written as one JSON string literal), formatJSON_valid_sharp (the JSON form is accepted by the recogniser for every formatter with plain names and every message whose list-valued fields are printed as arrays), default_valid (unconditional for the default configuration), forms_agree (JSON and text are two syntaxes of one list of rendered fields). PARTIAL: the recogniser is tied to encoding/json by comparison on edge cases and mutations, the renderings to the documentation by oracles computed with Python's ipaddress / datetime.",
+    level_text="Theorems: frame_split / stream_roundtrip (a stream of N frames reads back as the N messages, unmarshal_marshal with a reader written from the protobuf encoding rules), jsonQuote_valid (every byte string is written as one JSON string literal), formatJSON_valid_sharp (the JSON form is accepted by the recogniser for every formatter with plain names and every message whose list-valued fields are printed as arrays), default_valid (unconditional for the default configuration), forms_agree (JSON and text are two syntaxes of one list of rendered fields). The notion of well-formed JSON is declarative: RFC 8259 as inductive predicates over bytes (Goflow/Spec/JsonGrammar.lean), with valid_iff — the executable recogniser accepts exactly the texts of the grammar — and formatJSON_is_json_object / default_is_json_object: the JSON form is one JObject. PARTIAL only in that the agreement of this grammar with Go's encoding/json (byte-level strings, no UTF-8 check) is compared on edge cases and mutations, the renderings to the documentation by oracles computed with Python's ipaddress / datetime.",
 )
 
 PROPS["C14"] = dict(
